@@ -111,7 +111,8 @@ def run(tier, t0):
     vlib.build_harness()
     mc = vlib.tlc_must_pass(vlib.run_tlc("Relay", "MCRelay.cfg", workers=8, timeout=1800), "MCRelay")
     # (configured idle, configured udp); None = key absent (default 600)
-    configs = [(1, 2), (2, 1), (0, 0), (None, None)] if not thorough else [(1, 2), (2, 1), (3, 5), (5, 3), (0, 0), (None, None)]
+    # incl. one period disabled (0) next to the other one enabled: the two settings must not leak into each other
+    configs = [(1, 2), (2, 1), (0, 0), (None, None), (2, 0), (0, 1)] if not thorough else [(1, 2), (2, 1), (3, 5), (5, 3), (0, 0), (None, None), (2, 0), (0, 1), (3, 0)]
     listeners = [("http", "direct"), ("socks5", "direct"), ("socks4", "upsocks5"), ("reverse", "direct"), ("http", "uphttp")]
     ntr = 0
     ntun = 0
